@@ -23,8 +23,8 @@ import time
 
 import vcheck as V
 
-TYPES = ["kv", "h", "l", "s", "z"]
-LETTER = {"kv": "k", "h": "h", "l": "l", "s": "s", "z": "z"}
+TYPES = ["kv", "h", "l", "s", "z", "b"]
+LETTER = {"kv": "k", "h": "h", "l": "l", "s": "s", "z": "z", "b": "b"}
 PREFIX_FREE_POOLS = [0, 6, 7]          # name pools the memory (radix) engine is run with
 ALL_POOLS = [0, 1, 2, 3, 4, 5, 6, 7]
 DRIVER_FILES = ["smsim.go"]
@@ -75,6 +75,8 @@ def model_stage(ctx, types, dup=False, theorems=True, workers=4, timeout=900):
 def _type_of(c):
     if c in ("rpush", "rpush2", "rpop"):
         return "l"
+    if c in ("setbit", "getbit", "bitcount", "bitcount2", "bitclear", "bkeyexist", "bexpire", "bttl", "bpersist"):
+        return "b"
     if c[0] in "hlz":
         return c[0]
     if c[0] == "s":
@@ -116,6 +118,18 @@ def _expire_extreme(seg, ty, keys):
     return False
 
 
+def _bitmap_over_string(seg, keys):
+    """a string write and a SETBIT on the failing key in this segment (legacy bitmap conversion)"""
+    sw = sb = False
+    for x in seg:
+        if x.get("ev") in ("cmd", "panic") and "c" in x and (set(_keys_of(x)) & set(keys)):
+            if x["c"] == "setbit":
+                sb = True
+            elif _type_of(x["c"]) == "k" and x["c"] not in ("get", "strlen", "exists", "exists2", "mget", "getrange", "ttl"):
+                sw = True
+    return sw and sb
+
+
 def _noncanon(v):
     """symbols of a decimal numeral with a leading zero (01, -0, -01)"""
     if len(v) >= 2 and v[0] == 11:
@@ -144,7 +158,7 @@ def classify(seg, cls, expinv):
     ev = e.get("ev")
     sig = {"class": cls, "trigger": "none"}
     # the (type, key) the failing line is about
-    if ev == "cmd":
+    if ev == "cmd" or (ev == "panic" and "c" in e):
         ty, keys = _type_of(e["c"]), _keys_of(e)
         sig["cmd"] = e["c"]
     elif ev.startswith("obs_"):
@@ -156,7 +170,11 @@ def classify(seg, cls, expinv):
     else:
         ty, keys = "", []
         sig["cmd"] = ev
-    if ev == "cmd" and e["c"] in ("decr", "decrby") and e.get("r") == [4]:
+    if ev == "cmd" and e["c"] == "bitcount2":
+        sig["trigger"] = "bitcount-range"
+    elif ty in ("b", "k") and keys and _bitmap_over_string(seg, keys):
+        sig["trigger"] = "bitmap-over-string"
+    elif ev == "cmd" and e["c"] in ("decr", "decrby") and e.get("r") == [4]:
         sig["trigger"] = "decr-unregistered"
     elif ev == "cmd" and e["c"] in ("incr", "incrby", "hincrby") and e.get("r", [0])[0] == 1 and _int_extreme(seg, e):
         # an increment at the int64 extremes answered a (wrapped) integer
@@ -538,11 +556,11 @@ def run_family(ctx, prop):
     smoke = bool(os.environ.get("VERIF_KV_SMOKE")) and not quick
 
     # ---- (A) model: exhaustive per-type instances + theorems; graphs for the walks
-    rot = (ctx.seed + {"C08": 0, "C09": 2, "C10": 3}[prop]) % 5
+    rot = (ctx.seed + {"C08": 0, "C09": 2, "C10": 3}[prop]) % 6
     if quick:
-        gtypes = [TYPES[rot], TYPES[(rot + 1 + (ctx.seed // 5) % 3) % 5]]
+        gtypes = [TYPES[rot], TYPES[(rot + 1 + (ctx.seed // 6) % 3) % 6]]
         if gtypes[0] == gtypes[1]:
-            gtypes[1] = TYPES[(rot + 1) % 5]
+            gtypes[1] = TYPES[(rot + 1) % 6]
     else:
         gtypes = list(TYPES)
     dup = (prop == "C09")      # C09 walks the instance in which commands may repeat a member
@@ -628,6 +646,14 @@ def run_family(ctx, prop):
             ("rand-mem-ld", "ld", ["-eng", "mem", "-policy", "ld", "-random", R(10), "-len", "200",
                                    "-pool", str(mpool), "-nowtick", "12"]),
         ]
+    # bitmaps: a keyspace of their own (no string under the same key: finding kv-bitmap-legacy-conversion)
+    walks.append(("rand-pebble-wc-bitmap", "wc", ["-eng", "pebble", "-policy", "wc", "-random", R(12), "-len", "200", "-types", "b",
+                                                  "-group", "2", "-nk", "2", "-pool", str((pool + 1) % 8), "-nowtick", "20"]))
+    if not quick:
+        walks.append(("rand-mem-wc-bitmap", "wc", ["-eng", "mem", "-policy", "wc", "-random", R(8), "-len", "200", "-types", "b",
+                                                   "-nk", "2", "-pool", str(mpool), "-nowtick", "41", "-compact", "5"]))
+        walks.append(("rand-pebble-ld-bitmap", "ld", ["-eng", "pebble", "-policy", "ld", "-random", R(8), "-len", "200", "-types", "b",
+                                                      "-nk", "2", "-pool", str(pool), "-nowtick", "12", "-scan", "5"]))
     # several commands (also on the SAME key) applied as one raft entry: the apply loop shares one
     # write batch among set/setex/del/hmset and must cut it before a key is touched twice
     walks.append(("rand-pebble-wc-batch", "wc", ["-eng", "pebble", "-policy", "wc", "-random", R(20), "-len", "200", "-dup",
@@ -667,7 +693,17 @@ def run_family(ctx, prop):
                            ["-eng", "pebble", "-policy", "wc", "-random", "40" if quick else "300", "-len", "80", "-types", "hlsz",
                             "-nk", "1", "-ns", "3", "-equalns", "-window", "3", "-nowtick", "1", "-seed", seed, "-pool", str(pool)],
                            "wc", stats, samples, parts=2, do_shrink=False)
+    if prop in ("C08", "C10"):
+        # legacy bitmap layout (a string read / adopted as a bitmap): recorded finding under wait_compact,
+        # fully strict under local deletion
+        for pol in ("wc", "ld"):
+            drive_and_validate(ctx, zr, "isolate-bitmap-legacy-" + pol,
+                               ["-eng", "pebble", "-policy", pol, "-script", os.path.join(CHECKS, "kv_isolate_bitmap_legacy.ndjson"),
+                                "-seed", seed, "-nk", "2", "-ns", "2", "-pool", "0", "-nowtick", "2"], pol, stats, samples, parts=1, do_shrink=False)
     if prop == "C08":
+        drive_and_validate(ctx, zr, "isolate-bitcount",
+                           ["-eng", "pebble", "-policy", "wc", "-script", os.path.join(CHECKS, "kv_bitcount_ranges.ndjson"), "-seed", seed,
+                            "-nk", "2", "-ns", "2", "-nowtick", "2"], "wc", stats, samples, parts=1, do_shrink=False)
         drive_and_validate(ctx, zr, "isolate-numeral",
                            ["-eng", "pebble", "-policy", "wc", "-script", os.path.join(CHECKS, "kv_isolate_numeral.ndjson"), "-seed", seed,
                             "-nk", "2", "-ns", "2", "-nowtick", "2"], "wc", stats, samples, parts=1, do_shrink=False)
